@@ -54,6 +54,8 @@ RULES = [
     ('R12', r"\b(\w+)\.contains\(('(?:\\u\{[0-9a-fA-F]+\}|\\.|[^'\\])')\)", r"vx_str_contains_char(\1, \2)", 'str::contains(char)'),
     ('R12', r"\b(\w+)\.ends_with\(('(?:\\u\{[0-9a-fA-F]+\}|\\.|[^'\\])')\)", r"vx_str_ends_with_char(\1, \2)", 'str::ends_with(char)'),
     ('R12', r"\b(\w+)\.starts_with\(('(?:\\u\{[0-9a-fA-F]+\}|\\.|[^'\\])')\)", r"vx_str_starts_with_char(\1, \2)", 'str::starts_with(char)'),
+    ('R21', r"(?m)^(\s*)([A-Za-z_][\w\.]*) \|= ([A-Za-z_][\w\.]*);", r"\1\2 = \2 || \3;", 'bool `|=` with a side-effect-free right operand (Verus rejects non-short-circuit `|` on bools)'),
+    ('R21', r"(?m)^(\s*)([A-Za-z_][\w\.]*) &= ([A-Za-z_][\w\.]*);", r"\1\2 = \2 && \3;", 'bool `&=` with a side-effect-free right operand'),
     ('R6',  r"\bpanic!\s*\((?:[^()]|\([^()]*\))*\)", r"vx_unreachable_panic()", 'panic! is a call with `requires false`'),
 ]
 
